@@ -74,7 +74,20 @@ def _ev(S, F, x, asg, tabs):
         pl = x[1]
         if pl[0] == "index" and pl[1] == ("deref", P(1)) and pl[2][0] == "const":
             return asg["src"][pl[2][1]]
+        if pl[0] == "cindex" and pl[1] == ("deref", P(1)) and not pl[3]:
+            return asg["src"][pl[2]]
         raise _Unknown(sym.fmt(n(x)))
+    if k == "len" and n(x[1]) in (P(1), ("deref", P(1))):
+        return asg["len"]
+    if k == "index" and x[1][0] == "index" and x[1][1][0] == "table" and asg.get("pairs") and x[1][1][1] in asg["pairs"]:
+        i = _ev(S, F, x[1][2], asg, tabs)
+        j = _ev(S, F, x[2], asg, tabs)
+        tab = asg["pairs"][x[1][1][1]]
+        if not isinstance(i, int) or not (0 <= i < len(tab)) or j not in (0, 1):
+            raise _Unknown("pair table index %s, %s" % (i, j))
+        return tab[i][j]
+    if k == "cindex":
+        return _ev(S, F, ("index", x[1], ("const", x[2])), asg, tabs)
     if k == "index" and x[1][0] == "table":
         arr = tabs(x[1][1])
         i = _ev(S, F, x[2], asg, tabs)
@@ -115,6 +128,9 @@ def _ev(S, F, x, asg, tabs):
         args = x[3] if isinstance(x[1], int) else x[2]
         if path.endswith(("intrinsics::likely", "intrinsics::unlikely", "hint::likely", "hint::unlikely")) and len(args) == 1:
             return _ev(S, F, args[0], asg, tabs)
+        from ..norm import WIDENING_FROM
+        if len(args) == 1 and WIDENING_FROM.match(path):
+            return _ev(S, F, args[0], asg, tabs)  # lossless integer conversion
         if path == "core::slice::<impl [T]>::len" and len(args) == 1 and n(args[0]) in (P(1), ("deref", P(1))):
             return asg["len"]
         if path == H + "decode_digit" and len(args) == 1:
@@ -311,7 +327,7 @@ def digit_pair(S, F, p, val, dst, reverse, tabs):
     if kinds not in (["pair"], ["0", "1"]):
         return "writes %s; reference one 2-byte copy or stores to [0] and [1]" % kinds
     for v in range(256):
-        asg = {"subst": {val: v}, "src": {}, "len": 2}
+        asg = {"subst": {val: v}, "src": {}, "len": 2, "pairs": pairs}
         got = [None, None]
         try:
             for w in writes:
@@ -400,7 +416,8 @@ def encoders(ctx, r, F):
         desc = "loop not recognised"
         if step is not None:
             want_pre = ["chunks_exact_mut", "iter", "zip", "into_iter"]
-            pre_names = [c[1].rsplit("::", 1)[-1] for c in pre.calls]
+            pre_names = [c[1].rsplit("::", 1)[-1] for c in pre.calls if c[1].rsplit("::", 1)[-1] not in ("copied", "cloned")]
+            by_value = any(c[1].rsplit("::", 1)[-1] in ("copied", "cloned") for c in pre.calls)
             it = [p for p in step if p.end == "loop"]
             ex = [p for p in step if p.end == "return"]
             if pre_names == want_pre and len(it) == 1 and len(ex) == 1:
@@ -408,7 +425,7 @@ def encoders(ctx, r, F):
                 nxt = [n(("call", c[0], c[1], c[2])) for c in p.calls if c[1].endswith("::next")]
                 item = ("field", ("variant", nxt[0], "Some"), 0) if nxt else None
                 chunk = ("field", item, 0)
-                val = ("load", ("deref", ("field", item, 1)))
+                val = ("field", item, 1) if by_value else ("load", ("deref", ("field", item, 1)))
                 why = digit_pair(sym.Sym(b), F, p, val, chunk, nm == "encode_rev_array", tabs)
                 desc = why or "digit pair ok"
                 ok = why is None
